@@ -5,6 +5,7 @@ import AdfObdd.CountsMore
 import AdfObdd.PathsDepth
 import AdfObdd.OpsProofs
 import AdfObdd.TTSpec
+import AdfObdd.TTDepthPaths
 /-! # C13 — counts, depth, supports and path cubes of a diagram are exact
 
 Model: `countF` (= `modelcount_naive`: counter-models, models, depth), `pathsF`, `depsF`
@@ -186,3 +187,84 @@ example : TT.Rep 1 (TT.var 1 0) (eval x0Store 2) ∧ (∀ x ∈ depsF x0Store 3 
   · simp [depsF, x0Store_nodes]
 
 end C13
+
+/-! ## tie to the executable truth-table specification, continued: depth and paths
+
+`TT.depth` / `TT.paths` (`Spec/TT.lean`) compute depth and path counts of THE reduced ordered
+diagram of a function from its truth table alone (order 0 < 1 < …). `TTDepthPaths.lean` proves
+that they are the depth component of `countF` and the path counts `pathsF` of every diagram of a
+well-formed store that denotes the function — so the `~ … paths … depth …` answers of the test
+driver are theorem-backed in the same way as `sat` and `deps` are by `counts_vs_truth_table`. -/
+namespace C13
+
+/-- if the truth table `tt` over `nv` variables represents the function of the diagram `t` and
+the diagram's variables are below `nv`, then `TT.depth` of the table is the depth component of
+`countF` (the length of a longest root-to-leaf path, `depth_exact`) -/
+theorem depth_vs_truth_table (s : Store) (w : WF s) (t : Nat) (ht : t < s.nodes.size) (nv tt : Nat)
+    (hrep : TT.Rep nv tt (eval s t)) (hdeps : ∀ x ∈ depsF s (t+1) t, x < nv) :
+    TT.depth nv tt = (countF s (t+1) t).2.2 :=
+  TT.depth_eq s w.table t ht nv tt hrep hdeps
+
+/-- … and `TT.paths` of the table is the pair (paths to ⊥, paths to ⊤) of `pathsF` (the numbers of
+listed root-to-leaf paths, `paths_exact`) -/
+theorem paths_vs_truth_table (s : Store) (w : WF s) (t : Nat) (ht : t < s.nodes.size) (nv tt : Nat)
+    (hrep : TT.Rep nv tt (eval s t)) (hdeps : ∀ x ∈ depsF s (t+1) t, x < nv) :
+    TT.paths nv tt = pathsF s (t+1) t ∧ TT.paths nv tt = paths s t :=
+  ⟨TT.paths_eq s w.table t ht nv tt hrep hdeps, TT.paths_eq s w.table t ht nv tt hrep hdeps⟩
+
+/-- the same two facts for a bare node table that is structurally well formed (what `wfCheck`
+establishes for a table dumped from the implementation) -/
+theorem depth_paths_vs_truth_table_tab (s : Store) (h : TableWF s.nodes) (t : Nat) (ht : t < s.nodes.size)
+    (nv tt : Nat) (hrep : TT.Rep nv tt (eval s t)) (hdeps : ∀ x ∈ depsF s (t+1) t, x < nv) :
+    TT.depth nv tt = (countF s (t+1) t).2.2 ∧ TT.paths nv tt = pathsF s (t+1) t :=
+  ⟨TT.depth_eq s h t ht nv tt hrep hdeps, TT.paths_eq s h t ht nv tt hrep hdeps⟩
+
+/-- the hypotheses hold for the diagram of x0 over one variable … -/
+theorem x0_rep : TT.Rep 1 (TT.var 1 0) (eval x0Store 2) ∧ (∀ x ∈ depsF x0Store 3 2, x < 1) := by
+  constructor
+  · have : eval x0Store 2 = fun σ => σ 0 := by
+      funext σ
+      rw [eval_node x0Store x0Store_WF 2 ⟨0, 0, 1⟩ (by decide) (by simp [x0Store_nodes]), eval_one, eval_zero]
+      cases σ 0 <;> rfl
+    rw [this]; exact TT.rep_var 1 0
+  · simp [depsF, x0Store_nodes]
+
+/-- … so the theorems apply, and both sides are the values one expects (depth 1, one path each) -/
+example : TT.depth 1 (TT.var 1 0) = (countF x0Store 3 2).2.2 ∧ TT.paths 1 (TT.var 1 0) = pathsF x0Store 3 2 ∧
+    TT.depth 1 (TT.var 1 0) = 1 ∧ TT.paths 1 (TT.var 1 0) = (1, 1) :=
+  ⟨depth_vs_truth_table x0Store x0Store_WF 2 (by simp [x0Store_nodes]) 1 _ x0_rep.1 x0_rep.2,
+   (paths_vs_truth_table x0Store x0Store_WF 2 (by simp [x0Store_nodes]) 1 _ x0_rep.1 x0_rep.2).1,
+   by decide, by decide⟩
+
+/-- the diagram of x1 in a store over TWO variables: level 0 is skipped by the recursion -/
+def x1Store : Store := (mkNode Store.init 1 0 1).1
+
+theorem x1Store_WF : WF x1Store :=
+  (mkNode_spec Store.init WF_init 1 0 1 (by simp [Store.init]) (by simp [Store.init])
+    (by simp [VBOT]) (by simp [topVar, Store.init, VBOT]) (by simp [topVar, Store.init, VTOP])).1
+
+theorem x1Store_nodes : x1Store.nodes = #[⟨VBOT, 0, 0⟩, ⟨VTOP, 1, 1⟩, ⟨1, 0, 1⟩] := by
+  simp [x1Store, mkNode, Store.init]
+
+/-- non-vacuity with a skipped level and an unused variable: x1 over the variables {0, 1}, and
+x1 over {0, 1, 2}: depth 1 and one path each, although the tables have 4 resp. 8 rows -/
+example : TT.Rep 2 (TT.var 2 1) (eval x1Store 2) ∧ (∀ x ∈ depsF x1Store 3 2, x < 2) ∧
+    TT.depth 2 (TT.var 2 1) = (countF x1Store 3 2).2.2 ∧ TT.paths 2 (TT.var 2 1) = pathsF x1Store 3 2 ∧
+    TT.depth 2 (TT.var 2 1) = 1 ∧ TT.paths 2 (TT.var 2 1) = (1, 1) ∧
+    TT.depth 3 (TT.var 3 1) = (countF x1Store 3 2).2.2 := by
+  have hf : eval x1Store 2 = fun σ => σ 1 := by
+    funext σ
+    rw [eval_node x1Store x1Store_WF 2 ⟨1, 0, 1⟩ (by decide) (by simp [x1Store_nodes]), eval_one, eval_zero]
+    cases σ 1 <;> rfl
+  have hrep : TT.Rep 2 (TT.var 2 1) (eval x1Store 2) := by rw [hf]; exact TT.rep_var 2 1
+  have hrep3 : TT.Rep 3 (TT.var 3 1) (eval x1Store 2) := by rw [hf]; exact TT.rep_var 3 1
+  have hd : ∀ x ∈ depsF x1Store 3 2, x < 2 := by simp [depsF, x1Store_nodes]
+  have hlt : 2 < x1Store.nodes.size := by simp [x1Store_nodes]
+  exact ⟨hrep, hd, depth_vs_truth_table x1Store x1Store_WF 2 hlt 2 _ hrep hd,
+    (paths_vs_truth_table x1Store x1Store_WF 2 hlt 2 _ hrep hd).1, by decide, by decide,
+    depth_vs_truth_table x1Store x1Store_WF 2 hlt 3 _ hrep3 (fun x hx => Nat.lt_succ_of_lt (hd x hx))⟩
+
+end C13
+
+#print axioms C13.depth_vs_truth_table
+#print axioms C13.paths_vs_truth_table
